@@ -327,6 +327,7 @@ func buildState(sc *chainx.Scenario, h []int, md mode) (c *stateCtx, err error) 
 			cv.Blocked[a] = true
 		}
 	}
+	c.fillPolicy(n, cv)
 	if c.vals, err = bc.GetNextBlockValidators(); err != nil {
 		return nil, err
 	}
